@@ -11,6 +11,7 @@ from bodies import AttrTable, Tokens, enc, vcard, vevent
 from common import run_driver, scratch_dir
 from httpfam import HttpImpl, compare_http, penc
 from httpdrv import parse_multistatus
+import transval
 
 AUDIT = "Audit/C18.lean"
 MODULE = "Xandikos.Theorems.C18Resolve"
@@ -156,11 +157,22 @@ class Walk:
         if self.impl.frontend == "wsgi":
             return self.impl.prefix     # the bare WSGI callable: no redirector in front of it
         start = None
-        for wk in ("/.well-known/caldav", "/.well-known/carddav"):
-            r = self.srv.request("GET", wk)
+        mounts = ("root", "alias", "exact") if hasattr(self.srv, "wellknown_mount") else (None,)
+        for wk, mount in [(w, m) for w in ("/.well-known/caldav", "/.well-known/carddav") for m in mounts]:
+            if mount is not None:
+                self.srv.wellknown_mount = mount
+            try:
+                r = self.srv.request("GET", wk)
+            finally:
+                if mount is not None:
+                    self.srv.wellknown_mount = "root"
+            if mount not in (None, "root"):
+                wk_label = f"{wk} (redirector mounted as {mount})"
+            else:
+                wk_label = wk
             loc = r.header("Location")
             if r.status not in (301, 302, 303, 307, 308) or not loc:
-                self.bad("C18:well-known-does-not-redirect", f"GET {wk} = {r.status}")
+                self.bad("C18:well-known-does-not-redirect", f"GET {wk_label} = {r.status}")
                 continue
             t = self.follow(wk, loc)
             if t is None or t.rstrip("/") != self.base:
@@ -370,7 +382,7 @@ def run(chk):
                 "hrefs; after every restart the chain, the listings, ETags, bodies and properties must be unchanged. "
                 "The Lean model predicts the exact text of every discovery href and the exact set of repositories "
                 "(with their metadata bytes) on disk after every start")
-    chk.lean_obligations(MODULE, AUDIT)
+    chk.lean_obligations(MODULE, AUDIT, regen=lambda c: transval.regen(c, ["Wellknown", "Href"]))
     quick = chk.tier == "quick"
     toks = Tokens()
     combos = [(fe, pf, pr, sq) for fe in FRONTENDS for pf in ROUTE_PREFIXES for pr in PRINCIPALS for sq in START_SEQUENCES]
